@@ -268,10 +268,11 @@ def cli_status(prog: dict[str, Any], main_text: str, extra_flags: list[str]) -> 
 
     with open(os.path.join("tmp", "main.py"), "w", encoding="utf8") as f:
         f.write(main_text)
-    seen = {"compile_error": False}
+    seen = {"compile_error": False, "called": False}
     orig = mb.build
 
     def build(*a: Any, **k: Any) -> Any:
+        seen["called"] = True
         try:
             return orig(*a, **k)
         except CompileError:
@@ -305,6 +306,6 @@ def cli_status(prog: dict[str, Any], main_text: str, extra_flags: list[str]) -> 
     n_err = sum(1 for ln in lines if _ERR_LINE.search(ln))
     everything = r["stderr"] + r["stdout"] + stray_out.getvalue() + stray_err.getvalue()
     crashed = "Traceback (most recent call last)" in everything or "INTERNAL ERROR" in everything
-    usage = r["stderr"].startswith("usage: mypy")
+    usage = r["stderr"].startswith("usage: mypy") or not seen["called"]  # main() refused the command line: no analysis
     return {"status": r["status"], "n_error_lines": n_err, "blocker": seen["compile_error"], "crashed": crashed, "usage_error": usage,
             "lines": lines, "args": args}
